@@ -305,6 +305,8 @@ def run_job(job):
         out["error_np"] = "%s: %s" % (type(ex).__name__, str(ex)[:300])
         return out
     bmask = borderline_mask(job, rn, ref)
+    # vacuity guard: a reference with no finite (float) / no two distinct (int) cells compares nothing
+    out["ref_informative"] = int(np.isfinite(ref).sum()) if ref.dtype.kind == "f" else int(ref.size)
     for ch in job["chunkings"]:
         rows, cols = ch["rows"], ch["cols"]
         case = {"rows": rows, "cols": cols, "sched": ch.get("sched", "synchronous"), "nw": ch.get("nw", 1),
